@@ -47,6 +47,12 @@ func (lr *LexerReader) Read() rune {
 	return lr.char
 }
 
+// IsEOF reports whether nothing is left to deliver: the rune 0 just returned by Read
+// is then the end-of-input sentinel and not a NUL in the source.
+func (lr *LexerReader) IsEOF() bool {
+	return !lr.ungetFlg && len(lr.history) == 0 && lr.pos >= len(lr.runes)
+}
+
 func (lr *LexerReader) AppendHistory(r rune) {
 	lr.history = append(lr.history, r)
 }
